@@ -182,6 +182,13 @@ def rel_of_term(term, truth=True):
     op in Lt/Le/Gt/Ge/Eq/Ne means `lhs op rhs` holds"""
     while isinstance(term, tuple) and term and term[0] == "un" and term[1] == "Not":
         term, truth = term[2], not truth
+    if isinstance(term, tuple) and len(term) >= 5 and term[0] == "ret" and "PartialEq" in term[1] and term[1].split("::")[-1] in ("eq", "ne") \
+            and isinstance(term[4], tuple) and len(term[4]) == 2:
+        # a derived comparison whose body was followed: the call is what matters
+        term = ("bin", "Eq" if term[1].endswith("::eq") else "Ne", term[4][0], term[4][1])
+    if isinstance(term, tuple) and term and term[0] == "call" and "PartialEq" in term[1] and term[1].split("::")[-1] in ("eq", "ne") and len(term[2]) == 2:
+        # `a == b` / `a != b` on a type whose comparison is a trait call
+        term = ("bin", "Eq" if term[1].endswith("::eq") else "Ne", term[2][0], term[2][1])
     if not (isinstance(term, tuple) and term and term[0] == "bin" and term[1] in _NEG):
         return []
     op = term[1] if truth else _NEG[term[1]]
